@@ -29,9 +29,9 @@ func init() {
 }
 
 type fzres struct {
-	class string // ok | err | panic | hang
+	class  string // ok | err | panic | hang
 	detail string
-	alloc uint64
+	alloc  uint64
 }
 
 // fzRun executes f under recover, a watchdog and allocation accounting.
